@@ -25,6 +25,9 @@ QEq(x, y) == EqT(x, y, RTol, TolRel)
 Rounded3(x, y) == IF Exact THEN QEq(x, y) ELSE NLeq(NAbs(NSub(x, y)), Half3)
 Rounded1(x, y) == IF Exact THEN QEq(x, y) ELSE NLeq(NAbs(NSub(x, y)), Half1)
 
+\* (the feed and biofuel series are reported to one decimal of a kcal per person per day at most)
+UseEq(x, y) == QEq(x, y)
+
 PInit == rb = [kind |-> "none"] /\ rmon = 0 /\ minFed = Zero /\ minReported = Zero /\ ended = FALSE
 
 BeginR(e) ==
@@ -60,6 +63,11 @@ MonthR(e) ==
   \* the part attributed to newly stored crops is what was eaten beyond that month's net production: never negative
   /\ Ck("FromNewStorageNonNeg", NonNeg(e.keq.new_stored_outdoor_crops))
   /\ Ck("CsvEqualsResult", \A c \in DOMAIN e.keq : QEq(e.csv[c], e.keq[c]))
+  \* what the result says went to feed and to biofuel, food by food, is what the optimiser sent there (seaweed by its energy content)
+  /\ Ck("FeedBiofuelReportIsAllocation", ~e.hasUse \/ \A f \in DOMAIN e.useAlloc :
+        LET k == IF f = "seaweed" THEN rb.swKcal ELSE One
+        IN /\ UseEq(Mul(e.useKeq[f].feed, I(100)), Mul(Mul(e.useAlloc[f].feed, k), rb.kd))
+           /\ UseEq(Mul(e.useKeq[f].bio, I(100)), Mul(Mul(e.useAlloc[f].bio, k), rb.kd)))
   /\ rmon' = rmon + 1
   /\ minFed' = IF rmon = 0 THEN e.fed ELSE Min(minFed, e.fed)
   /\ minReported' = IF rmon = 0 THEN sumRep ELSE Min(minReported, sumRep)
